@@ -319,6 +319,11 @@ fn cmd_batch(args: &[String]) -> i32 {
     total["all_workloads_enumerated_completely"] = serde_json::json!(exhaustive_all);
     total["wall_s"] = serde_json::json!(t0.elapsed().as_secs_f64());
     if digests {
+        let mut txt = String::new();
+        for (w, i, d) in &all_digests {
+            txt.push_str(&format!("{w} {i} {d:016x}\n"));
+        }
+        std::fs::write(format!("{outdir}/digests.txt"), txt).expect("write digests");
         total["trace_digest"] = serde_json::json!(format!("{:016x}", dd.finish()));
         total["trace_digest_runs"] = serde_json::json!(all_digests.len());
     }
